@@ -573,3 +573,8 @@ pub mod harness {
         )
     }
 }
+
+#[cfg(all(kani, olson_sean_k_wax_verif))]
+mod verif_kani {
+    include!(concat!(env!("WAX_VERIF_DIR"), "/kani/token_parse.rs"));
+}
